@@ -111,11 +111,17 @@ PowXStreams == {
   Cat([i \in 1..4 |-> LE(DigitsOf(RMod)[i], 8)]) \o Cat([i \in 1..4 |-> LE(DigitsOf(Sub(RMod, One))[i], 8)]),                   \* y = r rejected, then r-1
   Cat([i \in 1..4 |-> LE(Sub(X, One), 8)]) \o Cat([i \in 1..4 |-> LE(Zero, 8)]),                                                  \* largest tuple (>= r), then 0
   Cat([i \in 1..4 |-> LE(DigitsOf(Add(RMod, One))[i], 8)]) \o Cat([i \in 1..4 |-> LE(DigitsOf(ModN(Rnd(70), RMod))[i], 8)]) }
+RunLens == IF Tier = "quick" THEN {7, 31, 32, 33, 64} ELSE {7, 15, 16, 30, 31, 32, 33, 63, 64, 65, 100, 127, 128, 255, 256, 300}
 RandCases ==
   SetToSeq({ [op |-> o, stream |-> Cat([i \in 1..Len(FrCands[k]) |-> LE(FrCands[k][i], 32)]), src |-> "gen"] : o \in {"rand.zp", "rand.zpstar"}, k \in 1..Len(FrCands) })
   \o SetToSeq({ [op |-> "rand.fq", stream |-> Cat([i \in 1..Len(FqCands[k]) |-> LE(FqCands[k][i], 48)]), src |-> "gen"] : k \in 1..Len(FqCands) })
   \o SetToSeq({ [op |-> "rand.fq2", stream |-> Cat([i \in 1..Len(FqCands[k]) |-> LE(FqCands[k][i], 48)]), src |-> "gen"] : k \in 1..Len(FqCands) })
   \o SetToSeq({ [op |-> "rand.powx", stream |-> s, src |-> "gen"] : s \in PowXStreams })
+  \* long runs of rejected draws before the accepted one (the rejection loop has no bound: the n-th draw is as good as the first)
+  \o SetToSeq({ [op |-> o, stream |-> Cat([i \in 1..(n + 1) |-> LE(IF i <= n THEN Add(RMod, FromNat(i)) ELSE Sub(RMod, FromNat(n)), 32)]), cls |-> "long-rejection-run", src |-> "gen"] :
+                o \in {"rand.zp", "rand.zpstar"}, n \in RunLens })
+  \o SetToSeq({ [op |-> o, stream |-> Cat([i \in 1..(n + 1) |-> LE(IF i <= n THEN Add(QMod, FromNat(i)) ELSE Sub(QMod, FromNat(n)), 48)]) \o LE(FromNat(n), 48), cls |-> "long-rejection-run", src |-> "gen"] :
+                o \in {"rand.fq", "rand.fq2"}, n \in RunLens })
   \* the samplers fill the field element's storage directly, i.e. the stream bytes are Montgomery residues: candidates are given in that form.
   \* Candidate sequence: >= q (rejected by the field sampler), an x without y (rejected by the curve equation), then a small x; and
   \* torsion candidates - x of a point of order dividing the cofactor ((0, 2) on E; [r]N for a curve point N outside the subgroup),
